@@ -63,7 +63,7 @@ def _run_variant(args) -> Dict[str, Any]:
         try:
             rep, ctx, mod = run_property(pid, tmp, "quick")
             apply_known(rep)
-            viol = [o for o in rep.violations() if (o.rule, o.key) not in base_keys]
+            viol = [o for o in rep.violations() if (o.rule, o.key, o.what) not in base_keys]
             rules = sorted({o.rule for o in viol})
             got = "clean" if not viol else "|".join(rules)
             detail = [o.what[:160] for o in viol[:3]]
@@ -93,7 +93,7 @@ def run(pid: Optional[str], repo: str, jobs: int = 16, verbose: bool = False) ->
     for p in sorted({m.pid for m in ms}):
         try:
             rep, _, _ = run_property(p, repo, "quick")
-            base[p] = {(o.rule, o.key) for o in rep.violations()}
+            base[p] = {(o.rule, o.key, o.what) for o in rep.violations()}
         except AnalysisError:
             base[p] = set()
     tasks = [({"pid": m.pid, "name": m.name, "file": m.file, "old": m.old, "new": m.new, "count": m.count, "expect": m.expect, "also": m.also},
